@@ -217,6 +217,8 @@ func runC17(env *Env, rc *RunCtx) {
 		defer env.Close()
 	}
 	sys := env.SysTier()
+	tenants := rc.Mode == "tenants"
+	defer func() { sys.Net = "" }()
 	env.Wipe()
 	env.UseConfigCached(plainCfg, Limits{Depth: 100, Width: 1000, BatchMax: 10, BatchPar: 5})
 	theGen.Reseed(uint64(t.Choose(1<<30)), t.Choose(3))
@@ -303,6 +305,16 @@ func runC17(env *Env, rc *RunCtx) {
 			}
 			rc.Count("probe_write_verb_on_read_port", 1)
 		}
+		// mode tenants (a registry with a contextualizer, as a multi-tenant deployment
+		// has): half of the requests are issued for a tenant whose network the
+		// database has never seen - reading for it finds nothing and stores nothing
+		if tenants {
+			sys.Net = ""
+			if t.Bool(1, 2) {
+				sys.Net = fmt.Sprintf("%08x-51a4-4000-8000-%012x", uint32(rc.Run), i%3)
+				rc.Count("probe_read_for_an_unregistered_tenant", 1)
+			}
+		}
 		theHub.Arm(0, L2None)
 		var resp Resp
 		if smuggle != nil {
@@ -315,6 +327,9 @@ func runC17(env *Env, rc *RunCtx) {
 		log, _ := theHub.Disarm()
 		rc.Rec.Execs++
 		entry := fmt.Sprintf("%s -> %s", rq, resp)
+		if sys.Net != "" {
+			entry = "[for tenant " + sys.Net + "] " + entry
+		}
 		if len(entry) > 600 {
 			entry = entry[:600] + "..."
 		}
